@@ -80,7 +80,8 @@ fn prop_c06_get(before: &Url, op: &Op, after: &Url, status: &str) -> Option<Stri
             // oracle: the parser on the serialization without fragment + '#' + x
             let mut base = before.clone();
             base.set_fragment(None);
-            if !before.cannot_be_a_base() {
+            // (a trailing C0 control or space of the spliced text would be trimmed by the parser: no oracle then)
+            if !before.cannot_be_a_base() && !x.ends_with(|c: char| c <= ' ') {
                 if let Ok(v) = Url::parse(&format!("{}#{}", base.as_str(), x)) {
                     if v.fragment() != after.fragment() {
                         return Some(format!("set_fragment({:?}) reads back {:?}, the parser produces {:?}", x, after.fragment(), v.fragment()));
@@ -103,7 +104,8 @@ fn prop_c06_get(before: &Url, op: &Op, after: &Url, status: &str) -> Option<Stri
             base.set_fragment(None);
             base.set_query(None);
             let t: &str = x.trim_matches(|c| matches!(c, '\t' | '\n' | '\r'));
-            if let Ok(v) = Url::parse(&format!("{}?{}", base.as_str(), t)) {
+            // the sentinel fragment keeps trailing spaces of the query text away from the end of the input
+            if let Ok(v) = Url::parse(&format!("{}?{}#z", base.as_str(), t)) {
                 if v.query() != after.query() {
                     return Some(format!("set_query({:?}) reads back {:?}, the parser produces {:?}", x, after.query(), v.query()));
                 }
@@ -164,7 +166,7 @@ impl Ctx {
         let sig = format!("{}:{}:{}", op.kind(), status, shape(u));
         self.rep.case(stream, &req, &model, &imp, true, &sig);
         let differs = model != imp;
-        if self.search && differs {
+        if self.search && (differs || std::env::var("VERIF_SEARCH_ALL").is_ok()) {
             let mut ops = prefix.to_vec();
             ops.push(op.clone());
             match &nu {
